@@ -291,7 +291,8 @@ def check_blocking(repo: Repo, rep: Report):
                 continue        # reported above
             n_inst += 1
             construct = repo.construct(rel, cls + "." + name)
-            ok = name in OWNED
+            # an owner is a method the dynetx class itself defines (an inherited clear() is not one)
+            ok = name in OWNED and ns.origin[name] == cls
             rep.ob("B3.closure", construct, "structure mutator (%s) must be an owner" % ns.origin[name], ok=ok)
             if not ok:
                 why = direct[name][0][1] if direct.get(name) else "calls %s" % sorted(c for c in calls[name] if c in mut)
